@@ -21,7 +21,7 @@ RULE = (
     "documents = all concatenations of <=k fragments of A3 (A0 + parallel, short-form parallel, string cites, "
     "names reused as references). merge history = (document, subset S of its full case citations |S|<=2, "
     "resolved-name assignment per member of S, number of filter passes 1..3). distinct = distinct (tokenizer, text) "
-    "/ distinct history; non-trivial = >=2 citations returned / history that added >=1 reference citation. layouts: the real "
+    "/ distinct history; the <= 2-fragment documents and the fragment-edit templates also with remove_ambiguous=True; non-trivial = >=2 citations returned / history that added >=1 reference citation. layouts: the real "
     "filter_citations on every layout of a valid result (<= 2 citations on a grid of 6 (quick) / 7 positions, full spans extended "
     "left/right) plus <= 2 added reference citations with arbitrary spans."
 )
@@ -250,6 +250,8 @@ def shards(tier, seed):
     out = []
     for tok in ("AC", "HS", "REF"):
         out += dd.seq_shards("plain-" + tok, "A3", len(A3), d[tok], tok)
+    # the same guarantees with ambiguous citations removed (another path through the end of get_citations)
+    out += dd.seq_shards("plain-AC-ra", "A3", len(A3), 2, "AC", extra={"opts": {"remove_ambiguous": True}})
     out += dd.seq_shards("merge-AC", "A3", len(A3), d["MERGE"], "AC", extra={"merge": True}, prefix_len=1)
     out += dd.residue_shards("pumped-AC", "pump", "AC", 16)
     for ti in range(len(FE_TEMPLATES)):
@@ -330,6 +332,8 @@ def run_shard(sh):
         texts = list(dd.sliced(gen, sh["r"], sh["n"]))
         cases = ({"part": sh["part"], "tok": sh["tok"], "text": t} for t in texts)
         dd.run_cases(st, sh["part"], cases, evaluate, nontrivial=lambda c, t, cs: len(cs) >= 2)
+        cases_ra = ({"part": sh["part"] + "-ra", "tok": sh["tok"], "text": t, "opts": {"remove_ambiguous": True}} for t in texts)
+        dd.run_cases(st, sh["part"] + "-ra", cases_ra, evaluate, nontrivial=lambda c, t, cs: len(cs) >= 2)
         run_merge(st, "fragedit-merge", texts, sh["tok"])
         return st
     if sh["kind"] == "pump":
